@@ -14,7 +14,7 @@ RULE = ('states = filter states visited along the orbits (one per sample consume
         'distinct by (filter entry, configuration, true attitude, initial-error axis and angle, noise pattern) and non-trivial when the initial error is not zero')
 ASSUMPTIONS = ['stationary sensor: acc and mag are exact images of the filter\'s own reference directions (mc/ref/recursive.py), gyro = zero-mean periodic pattern of amplitude <= 1e-3 rad/s '
                '(exactly-zero gyro is excluded: several filters document it as "return q unchanged")',
-               'Madgwick takes a normalised gradient step of fixed length gain*dt, so its estimate chatters with that amplitude (0.29 deg at gain 0.5, 100 Hz): tolerance 1 deg for that configuration', 'per-configuration horizon H and tolerance are listed in CONFIGS; H is about twice the slowest settling time measured on the unchanged tree over the whole thorough grid',
+               'Madgwick takes a normalised gradient step of fixed length gain*dt, so its estimate chatters with that amplitude (0.29 deg at gain 0.5, 100 Hz): tolerance 1 deg for that configuration', 'Madgwick at its default gains escapes the neighbourhood of the antipode slowly (from 175 deg about x at the level pose: 20500 samples IMU, 26500 MARG), hence horizons 45000 / 60000 there', 'per-configuration horizon H and tolerance are listed in CONFIGS; H is about twice the slowest settling time measured on the unchanged tree over the whole thorough grid',
                'oracle: every row finite and unit; error(H) <= tol; error <= tol over the last 10 % of the run; final error <= max(initial error, tol)',
                'accelerometer-only variants are judged on tilt only; AQUA\'s state is the conjugate attitude; filters without a q0 are started far away by making the first sample consistent with the initial attitude',
                'initial errors up to 175 degrees; exactly opposite is excluded as in the statement']
@@ -43,8 +43,8 @@ def noise_patterns():
 
 # key -> list of (cfg index or dict, dt, horizon, tol_deg, reduced?)  horizon in samples
 CONFIGS = {
-    'Madgwick-IMU': [(dict(gain=0.5, frequency=100.0), 3000, 1.0), (dict(gain=0.033, frequency=100.0), 12000, 0.5)],
-    'Madgwick-MARG': [(dict(gain=0.5, frequency=100.0), 3000, 1.0), (dict(gain=0.041, frequency=100.0), 25000, 0.5)],
+    'Madgwick-IMU': [(dict(gain=0.5, frequency=100.0), 3000, 1.0), (dict(gain=0.033, frequency=100.0), 45000, 0.5)],
+    'Madgwick-MARG': [(dict(gain=0.5, frequency=100.0), 3000, 1.0), (dict(gain=0.041, frequency=100.0), 60000, 0.5)],
     'Mahony-IMU': [(dict(k_P=2.0, k_I=0.1, frequency=10.0), 1000, 0.5), (dict(frequency=100.0), 3000, 0.5)],
     'Mahony-MARG': [(dict(k_P=2.0, k_I=0.1, frequency=10.0), 2000, 0.5), (dict(frequency=100.0), 22000, 0.5)],
     'EKF-IMU': [(dict(frame='NED', frequency=10.0), 300, 0.5), (dict(frame='NED', frequency=100.0, noises=[0.1**2, 0.3**2, 0.5**2]), 300, 0.5)],
